@@ -32,6 +32,10 @@ CHECKS = {
    technique="TLA+ schedule model (Determinism.tla: nondeterministic discovery order, first-come numbering) model-checked with TLC; differential replay of the real FORD over file-order permutations, hash seeds, worker counts and output-directory histories",
    text="TLC shows on the schedule model that page numbering is schedule-independent iff files are parsed in a canonical order (and finds the counterexample for discovery-order parsing). The check then runs the real FORD on generated multi-file projects with equally named entities: every permutation of the file enumeration order (harness-supplied, in-process), PYTHONHASHSEED in {0,1,3(,2,17)}, parallel in {0,2(,8)}, output directory absent / stale from another project / from the same project (CLI), comparing whole output trees byte for byte (graphs and search index on).",
    note="Exploration over schedules: exhaustive over file orders for <=4 files in thorough, sampled in quick; 4 hand-sized generated projects. Trusted: TLC, graphviz determinism, the OS."),
+ "C13": dict(level="model_checking", ref="DESIGN.md 6/C13, 4.8, B.10",
+   technique="TLA+ spec (GraphBFS.tla: reachability-with-limits rule + add_nodes/add_to_graph hop machine) model-checked with TLC; every enumerated relation realised as a Fortran project and the real ford.graphs objects compared with Ref; add_to_graph calls recorded and checked",
+   text="TLC checks ModelEqualsReach, EdgesJoinPresentNodes and WithinLimit for the hop-by-hop expansion machine over all relations on 3-4 nodes x graph_maxdepth 1..3 x graph_maxnodes {1,2,3,99} (and shows that a >= in the limit test is caught). Each relation is realised as module USE, call, type-composition and type-extension projects; for every entity the forward and the inverse per-entity graph built by the real code (limits given project-wide or in the entity's own metadata) must show exactly Ref's nodes, only edges of the relation between shown nodes including all edges of expanded nodes, the table fallback when hop one does not fit, and never a dangling edge; `graph: false` is checked on a sample.",
+   note="Bounded to <=4 nodes per relation; graphs built through GraphManager as the repository's own fixture does, DOT source compared (SVG rendering off in the API tier). Trusted: TLC, graphviz python package's DOT emission, renderer."),
 }
 
 NOT_YET = {}
